@@ -55,6 +55,8 @@ theorem pure_ok {α} {a b : α} {σ σ' : PState} : (pure a : P α) σ = .ok (b,
 @[simp] theorem peek_run (k : TokenKind) (σ : PState) : peek k σ = .ok (decide (σ.cur.kind = k), σ) := rfl
 @[simp] theorem flagBad_run (σ : PState) : flagBad σ = .ok ((), { σ with bad := true }) := rfl
 @[simp] theorem fail_run {α} (p : Nat) (σ : PState) : (fail p : P α) σ = .error (.syntax p σ.bad σ.toks.length) := rfl
+@[simp] theorem failAt_run {α} (a : Bool) (p : Nat) (σ : PState) :
+    (failAt a p : P α) σ = .error (.syntax p σ.bad (if a then σ.toks.length - 1 else σ.toks.length)) := rfl
 @[simp] theorem unexpected_run {α} (σ : PState) : (unexpected : P α) σ = .error (.syntax σ.cur.start σ.bad σ.toks.length) := rfl
 @[simp] theorem outOfFuel_run {α} (σ : PState) : (outOfFuel : P α) σ = .error .fuel := rfl
 @[simp] theorem lookahead_run (σ : PState) : lookahead σ = .ok (σ.adv.cur, σ) := rfl
